@@ -30,7 +30,10 @@ TWOWAY = (" The binding is two-way: every behaviour TLC emits is replayed into t
           "that TLC accepts only if they are behaviours of the trace specification (all invariants evaluated at every "
           "step). Bounded model checking plus conformance, not a proof.")
 NOTE = ("TLC and the TLA+ modules are trusted; values are small integers/NULL (exact arithmetic in the spec, rounding "
-        "tolerance 1e-9 relative in the comparison); bounds and alphabets are in the evidence file of each run.")
+        "tolerance 1e-9 relative in the comparison); where the statistic is homogeneous in the unit of its series "
+        "(Laws1/2/3.tla, law checked by TLC, degree table emitted) every case is replayed again in other units (1.3e-4, "
+        "123467.8, 4e8 for i32, 1.5e18 for i64) at 1e-6 relative to the magnitude of the terms; bounds and alphabets are "
+        "in the evidence file of each run.")
 
 META.update({
     "C01": {
